@@ -54,7 +54,7 @@ def is_type_valued(repo: Repo, fi: FuncInfo, e: ast.AST, depth: int = 0) -> bool
             if a.arg == e.id:
                 if a.annotation is not None and unparse(a.annotation).split("[")[0] in ("type", "Type", "typing.Type"):
                     return True
-                sites = repo.callsites(fi.qualname)
+                sites = repo.callsites_flat(fi.qualname)
                 formals = [x.arg for x in fi.node.args.args]
                 idx = formals.index(e.id) - (1 if formals and formals[0] in ("self", "cls") else 0)
                 if sites and all(idx < len(c.args) and is_type_valued(repo, caller, c.args[idx], depth + 1) for caller, c in sites):
@@ -276,7 +276,7 @@ def check(ctx: Ctx) -> None:
     # ---- C01.h dump-before-send
     with ctx.obligation("C01.h", "dump-before-send") as ob:
         nsend = 0
-        for fi in repo.funcs.values():
+        for fi in repo.scan_funcs():
             for c in repo.calls_in(fi):
                 tg = repo.resolve_call(c, fi)
                 if not any(t.qualname == f"{GB}.BaseGateway._send" for t in tg):
@@ -298,7 +298,7 @@ def check(ctx: Ctx) -> None:
                     ob.violation(fi, c, "a frame payload is not a completed dumps_internal(...) value: a DumpError could strike after bytes reached the connection")
         ob.require(nsend >= 12, f"{nsend} _send call sites (floor 12)")
         # the streaming serializer form only in public dump()
-        for fi in repo.funcs.values():
+        for fi in repo.scan_funcs():
             for c in repo.calls_in(fi):
                 if isinstance(c.func, ast.Name) and c.func.id == "_Serializer" and (c.args or c.keywords):
                     ob.site(fi, c, "streaming _Serializer(write=...) only in dump()")
